@@ -15,7 +15,7 @@ from symv.hooks import Hooks
 
 META = {
     "level": "exploration",
-    "level_text": "Five monitors. (1) Hook on the fuse-plan cache: every plan handed out (hit or miss) equals a fresh uncached computation, and every lru_cache'd helper equals its uncached function, while families of arrays that differ in exactly one attribute (direction, block size, charge label, missing sector, sub-index structure behind an equal outer table, symmetry over equal labels, class kind, grouping, conj after the hash key was memoised) are visited in random orders with cache sizes {1,2,3,8192} and sector limits {1,512}; each result is also judged by the C05 placement oracle. (2) Black-box differential: one op list evaluated cold (cache off, all caches cleared before each op), warm, evicting, and in fresh subprocesses with SYMMRAY_FUSE_CACHE_MAXSIZE in {0,1,unset,junk} x MAXSECTORS in {1,unset}: digests identical. (3) default_tensordot_mode: nested, left normally and through exceptions (including a failing contraction), set_default(None) no-op; the global is read back after each. (4) 4-16 threads run out-of-place fuse/reshape/contraction/svd/transpose on shared arrays with cache size 2, a 1e-6 s switch interval and yields injected at 5% of executed library lines; every result digest must equal the sequential reference, no thread may raise, shared operands are unchanged. (5) The repository's own test suite is run once with the hooks of (1) attached (pytest plugin), as one more history. Verdicts are on logical results only; counters of hits, evictions, injected switches, distinct switch sites and interleaving signatures are reported.",
+    "level_text": "Five monitors. (1) Hook on the fuse-plan cache: every plan handed out (hit or miss) equals a fresh uncached computation, and every lru_cache'd helper equals its uncached function, while families of arrays that differ in exactly one attribute (direction, block size, charge label, missing sector, sub-index structure or sub-sector table behind an equal outer table, symmetry over equal labels, class kind, grouping, conj after the hash key was memoised) are visited in random orders with cache sizes {1,2,3,8192} and sector limits {1,512}; each result is also judged by the C05 placement oracle. (2) Black-box differential: one op list evaluated cold (cache off, all caches cleared before each op), warm, evicting, and in fresh subprocesses with SYMMRAY_FUSE_CACHE_MAXSIZE in {0,1,unset,junk} x MAXSECTORS in {1,unset}: digests identical. (3) default_tensordot_mode: nested, left normally and through exceptions (including a failing contraction), set_default(None) no-op; the global is read back after each. (4) 4-16 threads run out-of-place fuse/reshape/contraction/svd/transpose on shared arrays with cache size 2, a 1e-6 s switch interval and yields injected at 5% of executed library lines; every result digest must equal the sequential reference, no thread may raise, shared operands are unchanged. (5) The repository's own test suite is run once with the hooks of (1) attached (pytest plugin), as one more history. Verdicts are on logical results only; counters of hits, evictions, injected switches, distinct switch sites and interleaving signatures are reported.",
     "technique": "runtime monitoring: internal state hook (cached vs recomputed plan), differential digests across cache configurations / histories / processes, thread stress with injected yields vs sequential reference",
     "rule": (
         "evaluations = hooked plan comparisons + differential op comparisons + mode-context checks + thread-run op comparisons. Non-trivial = a fuse-plan cache HIT served while a near-identical sibling populated / occupies the cache "
@@ -23,7 +23,7 @@ META = {
     ),
     "anchors": ["abelian_core.cached_fuse_block_info", "abelian_core.calc_fuse_block_info", "abelian_core.BlockIndex.hashkey", "abelian_core.SubIndexInfo.hashkey", "abelian_core.default_tensordot_mode", "abelian_core.set_default_tensordot_mode"],
     "floors": {
-        "quick": {"evaluations": 8000, "distinct_nontrivial": 300, "tables": {"hook/plan-compared": 3000, "hook/plan-cache-hit": 800, "m2/configs-compared": 6, "m2/subprocess-configs": 8, "m3/context-checks": 200, "m4/ops-compared": 1500, "m4/injected-switches": 5000, "m4/switches-in-fuse-path": 1000, "m1/evictions": 100, "m5/repo-tests:plan-compared": 200}},
+        "quick": {"evaluations": 8000, "distinct_nontrivial": 300, "tables": {"hook/plan-compared": 3000, "hook/plan-cache-hit": 800, "m2/configs-compared": 6, "m2/subprocess-configs": 8, "m3/context-checks": 200, "m4/ops-compared": 1500, "m4/injected-switches": 5000, "m4/switches-in-fuse-path": 1000, "m1/evictions": 100, "m1/prefused-extent-families": 40, "m5/repo-tests:plan-compared": 200}},
         "thorough": {"evaluations": 100000, "distinct_nontrivial": 3000, "tables": {"m4/injected-switches": 100000, "m4/switches-in-fuse-path": 20000}},
     },
     "wall": {"quick": 115, "thorough": 1700},
@@ -36,7 +36,14 @@ def monitor1(ctx, hooks, rng):
     from checks.c05 import groupings, judge_fuse
 
     sr = ctx.sr
-    fam = c15ops.family(sr, rng) + (c15ops.subindex_twins(sr, rng) if rng.random() < 0.5 else [])
+    r_ = rng.random()
+    if r_ < 0.3:
+        fam = c15ops.prefused_extent_family(sr, rng)
+        if len(fam) < 2:
+            return
+        ctx.count("m1", "prefused-extent-families")
+    else:
+        fam = c15ops.family(sr, rng) + (c15ops.subindex_twins(sr, rng) if r_ < 0.65 else [])
     cs = rng.choice([1, 2, 3, 8192])
     ms = rng.choice([1, 512, 512])
     hooks.set_cache(maxsize=cs, maxsectors=ms, clear=rng.random() < 0.3)
